@@ -283,6 +283,23 @@ func (ci *cidx) mkBounded(fn *ssa.Function, keyOverride string, level int) func(
 				if desc {
 					return true
 				}
+				// … or starts at the length itself and only decreases (for i := n; i > 0; i-- { … [i-1] }): ≤ length
+				if upperInclusive && len(phi.Edges) > 0 {
+					descFromLen := true
+					for _, e := range phi.Edges {
+						if isLenLike(e) {
+							continue
+						}
+						bo, isBo := e.(*ssa.BinOp)
+						if k, isK := intConst2(bo, isBo); !isBo || bo.Op != token.SUB || bo.X != ssa.Value(phi) || !isK || k != 1 {
+							descFromLen = false
+							break
+						}
+					}
+					if descFromLen {
+						return true
+					}
+				}
 			}
 			// the result of a helper of the package that returns a position in the storage it is handed
 			{
@@ -321,6 +338,12 @@ func (ci *cidx) mkBounded(fn *ssa.Function, keyOverride string, level int) func(
 				// i+1 / i-1 as a slice end or neighbour of a bounded index
 				if (x.Op == token.ADD || x.Op == token.SUB) && upperInclusive {
 					if k, isK := intConst(x.Y); isK && k == 1 && okStrict(x.X, depth+1) {
+						return true
+					}
+				}
+				// v-1 as an index where v is at most the length
+				if x.Op == token.SUB && !upperInclusive {
+					if k, isK := intConst(x.Y); isK && k == 1 && okIncl(x.X, depth+1, true) {
 						return true
 					}
 				}
@@ -457,4 +480,11 @@ func (ci *cidx) helperBounded(h *ssa.Function, call *ssa.Call, skey string, at *
 		}
 	}
 	return false
+}
+
+func intConst2(bo *ssa.BinOp, ok bool) (int, bool) {
+	if !ok || bo == nil {
+		return 0, false
+	}
+	return intConst(bo.Y)
 }
